@@ -133,6 +133,16 @@ func ruleDrainBeforeTerminal(c *Ctx, r *R) {
 										// its body must return the received value with a nil error
 										body := selectArmBody(s2, k)
 										rv := recvValue(s2, k)
+										// case item, ok := <-s.c: if ok { return item, nil }: the comma-ok form - the value is
+										// handed out on the ok edge (the other edge, a closed data channel, falls through to the
+										// terminal handling)
+										if body != nil && len(body.Instrs) > 0 {
+											if iff, isIf := body.Instrs[len(body.Instrs)-1].(*ssa.If); isIf {
+												if ex, isEx := iff.Cond.(*ssa.Extract); isEx && ex.Tuple == ssa.Value(s2) && ex.Index == 1 {
+													body = body.Succs[0]
+												}
+											}
+										}
 										if body != nil && rv != nil {
 											if ret, ok := body.Instrs[len(body.Instrs)-1].(*ssa.Return); ok && len(ret.Results) == 2 && returnedValue(ret, 0) == rv && isNilConst(returnedValue(ret, 1)) {
 												okDrain = true
@@ -846,6 +856,11 @@ func rulePipePublish(c *Ctx, r *R) {
 				}
 				if strings.HasSuffix(path(returnedValue(ret, len(ret.Results)-1)), "End") {
 					under := false
+					// `case item, ok := <-s.c: if !ok { return zero, End }` where nothing in the package ever closes the data
+					// channel: a branch that cannot be taken decides nothing
+					if deadClosedDataBranch(c, d.in.Block()) {
+						continue
+					}
 					for _, g := range guardsOf(d.in.Block()) {
 						if cf, ok := g.asCmp(); ok && cf.op == token.EQL && isNilConst(cf.y) && (strings.HasSuffix(path(argOf(cf.x, d.calls)), ".senderErr") || errSlotRead(argOf(cf.x, d.calls))) {
 							okEnd = true
@@ -1543,4 +1558,51 @@ func drainedReachesReturn(fn *ssa.Function, body *ssa.BasicBlock, rv ssa.Value) 
 		}
 	}
 	return any && all
+}
+
+// deadClosedDataBranch: b is only reached when a comma-ok receive from the pipe's data channel reported the channel closed,
+// and no function of package stream closes a channel reached through that field.
+func deadClosedDataBranch(c *Ctx, b *ssa.BasicBlock) bool {
+	var sel *ssa.Select
+	closedSeen := false
+	arm := -1
+	for _, g := range guardsOf(b) {
+		if v, val := g.boolVal(); !val {
+			if ex, ok := v.(*ssa.Extract); ok && ex.Index == 1 {
+				if s2, ok := ex.Tuple.(*ssa.Select); ok {
+					sel, closedSeen = s2, true
+				}
+			}
+		}
+	}
+	if !closedSeen {
+		return false
+	}
+	for _, g := range guardsOf(b) {
+		if cf, ok := g.asCmp(); ok && cf.op == token.EQL {
+			if ex, ok := cf.x.(*ssa.Extract); ok && ex.Index == 0 && ex.Tuple == ssa.Value(sel) {
+				if k, isK := cf.y.(*ssa.Const); isK && k.Value != nil {
+					arm = int(k.Int64())
+				}
+			}
+		}
+	}
+	if arm < 0 || arm >= len(sel.States) || sel.States[arm].Dir != types.RecvOnly {
+		return false
+	}
+	field := fieldOfChan(sel.States[arm].Chan)
+	if field == "" || chanElemIsEmptyStruct(sel.States[arm].Chan.Type()) {
+		return false
+	}
+	closed := false
+	for _, fn := range c.funcsOfPkg("stream") {
+		instrs(fn, func(_ *ssa.BasicBlock, _ int, in ssa.Instruction) {
+			if call, ok := in.(*ssa.Call); ok {
+				if bi, isB := call.Call.Value.(*ssa.Builtin); isB && bi.Name() == "close" && len(call.Call.Args) == 1 && fieldOfChan(call.Call.Args[0]) == field {
+					closed = true
+				}
+			}
+		})
+	}
+	return !closed
 }
